@@ -37,7 +37,7 @@ def exGraph : Graph :=
     .command 7 5 ]
 
 def exDev : Dev :=
-  ⟨[1, 0, 9, 9, 1, 2, 3, 4, 5, 6, 7, 8, 0xA5, 0, 0, 0], [(15, 1)], [(8, 2)], [1], 0, []⟩
+  ⟨[1, 0, 9, 9, 1, 2, 3, 4, 5, 6, 7, 8, 0xA5, 0, 0, 0], [(15, 1)], [(8, 2)], [1], [], 0, []⟩
 
 /-- overlapping WriteThrough / WriteAround registers: hit, write through the other one, re-read -/
 def exHist1 : List Op := [.value 2, .value 2, .setValue 3 (.int (-2)), .value 2, .value 3]
@@ -70,7 +70,7 @@ example : ¬ Declared Profile.release exGraph2 := by decide
 (cache keyed by address): the third read of the register is a hit -/
 example :
     let h : List Op := [.value 2, .setValue 1 (.int 1), .value 2, .setValue 1 (.int 0), .value 2]
-    let d : Dev := ⟨[0, 0, 0, 0, 0, 0, 0, 0, 0, 0, 0, 0, 0, 0, 0, 0, 1, 0, 0, 0, 2, 0, 0, 0], [], [], [], 0, []⟩
+    let d : Dev := ⟨[0, 0, 0, 0, 0, 0, 0, 0, 0, 0, 0, 0, 0, 0, 0, 0, 1, 0, 0, 0, 2, 0, 0, 0], [], [], [], [], 0, []⟩
     (runHist defaultCache Profile.dev exGraph2 (initDefault exGraph2 d) h).1 =
         [.ok (.int 1), .ok .unit, .ok (.int 2), .ok .unit, .ok (.int 1)] ∧
       (runHist defaultCache Profile.dev exGraph2 (initDefault exGraph2 d) h).2.dev.log.length = 5 := by
@@ -86,7 +86,7 @@ example : ¬ Declared Profile.dev
 
 private theorem rel_self {p : Profile} {g : Graph} {s : St Store} (h : Inv p g s.cache s.dev) :
     Rel p g s ⟨(), s.dev⟩ :=
-  ⟨⟨rfl, rfl, rfl, rfl, rfl, logSub_refl _⟩, h⟩
+  ⟨⟨rfl, rfl, rfl, rfl, rfl, rfl, logSub_refl _⟩, h⟩
 
 /-- `read_and_cache` (raw register read / cache miss), including the device failure path. -/
 theorem prim_preserve_readAndCache {p : Profile} {g : Graph} {s : St Store} {n : NodeId} {r : Reg}
@@ -291,51 +291,52 @@ example :
 
 /-! ## 5. A register's own write is never hidden by an older cached read -/
 
-/-- **own_write_visible** (cache enabled): after a successful write of `buf` through register
-`n` at key `(a, len)`, the next read of `n` at the same key returns `buf`, whatever was cached
-before — for WriteThrough, WriteAround and NoCache. -/
-theorem own_write_visible {p : Profile} {g : Graph} (hD : Declared p g) {s s' : St Store}
-    {n : NodeId} {r : Reg} {a : Int} {buf : Bytes} (hI : Inv p g s.cache s.dev)
-    (hn : g[n]? = some (.reg r)) (hk : KeyAddr p g r a) (hlen : buf.length = r.len)
+/-- **own_write_visible** (cache enabled, no hypothesis on the description or the state):
+after a successful write of `buf` through register `n` at key `(a, len)`, the next read of `n`
+at the same key returns `buf`, whatever was cached before — for WriteThrough, WriteAround
+and NoCache. -/
+theorem own_write_visible {g : Graph} {s s' : St Store} {n : NodeId} {r : Reg} {a : Int}
+    {buf : Bytes} (hlen : buf.length = r.len)
     (hw : writeAt defaultCache g n r a buf s = (.ok (), s')) :
     (cachedRead defaultCache g n r a s').1 = .ok buf := by
-  have hI' := prim_preserve_writeAt hD hI hn hk hlen
-  rw [hw] at hI'
   rw [writeAt_eq] at hw
   split at hw
   · rename_i hport
-    split at hw
-    · rename_i hok
-      have hdev : s'.dev = (s.dev.write a buf).2 := by cases hw; rfl
-      have hpk : s'.dev.peek a r.len = some buf := by
-        rw [hdev, ← hlen]; exact peek_write_same hok
-      cases hget : s'.cache.get n a r.len with
-      | some bs =>
-        have : cachedRead defaultCache g n r a s' = (.ok bs, s') := by
-          show (match Store.get s'.cache n a r.len with
-            | some bs => (Res.ok bs, s')
-            | none => readAndCache defaultCache g n r a r.len s') = _
-          rw [hget]
-        rw [this]
-        have := hI'.coherent _ _ _ _ hget
-        rw [hpk] at this
-        cases this
-        rfl
-      | none =>
-        have : cachedRead defaultCache g n r a s' = readAndCache defaultCache g n r a r.len s' := by
-          show (match Store.get s'.cache n a r.len with
-            | some bs => (Res.ok bs, s')
-            | none => readAndCache defaultCache g n r a r.len s') = _
-          rw [hget]
-        rw [this, readAndCache_eq, if_neg (by simp), if_pos hport, hpk]
-    · cases hw
+    obtain ⟨h1, h2⟩ := Prod.mk.inj hw
+    have hok : s.dev.writeOk a buf.length = true := by
+      rw [write_fst] at h1
+      split at h1
+      · assumption
+      · cases h1
+    have hpk : s'.dev.peek a r.len = some buf := by
+      rw [← h2, ← hlen]; exact peek_write_same hok
+    by_cases hwt : r.mode = .writeThrough
+    · have hget : s'.cache.get n a r.len = some buf := by
+        rw [← h2]
+        show Store.get (if _ then Store.cache _ n a r.len buf else _) n a r.len = some buf
+        rw [if_pos ⟨hok, hwt⟩, get_cache, if_pos ⟨rfl, rfl, rfl⟩]
+      show (match Store.get s'.cache n a r.len with
+        | some bs => (Res.ok bs, s')
+        | none => readAndCache defaultCache g n r a r.len s').1 = _
+      rw [hget]
+    · have hget : s'.cache.get n a r.len = none := by
+        rw [← h2]
+        show Store.get (if _ then _ else Store.invalidateOf _ n) n a r.len = none
+        rw [if_neg (fun h => hwt h.2), get_invalidateOf, if_pos rfl]
+      show (match Store.get s'.cache n a r.len with
+        | some bs => (Res.ok bs, s')
+        | none => readAndCache defaultCache g n r a r.len s').1 = _
+      rw [hget]
+      dsimp only
+      rw [readAndCache_eq, if_neg (by simp), if_pos hport, hpk]
   · cases hw
 
 /-- **own_write_visible, operation level** (registers with a constant address): after a
-successful raw `IRegister::write` of `buf` through an IntReg — whatever its caching mode and
-whatever an earlier read left in the cache — the next `value()` decodes `buf`. -/
-theorem own_write_visible_op {p : Profile} {g : Graph} (hD : Declared p g) {s s' : St Store}
-    (hI : Inv p g s.cache s.dev) {n : NodeId} {r : Reg} (hn : g[n]? = some (.reg r))
+successful raw `IRegister::write` of `buf` through an IntReg — whatever its caching mode,
+whatever the description declares and whatever an earlier read left in the cache — the next
+`value()` decodes `buf`. -/
+theorem own_write_visible_op {p : Profile} {g : Graph} {s s' : St Store}
+    {n : NodeId} {r : Reg} (hn : g[n]? = some (.reg r))
     (hsel : r.sel = none) {e : Endian} {sg : Sign} (hk : r.kind = .int e sg) {buf : Bytes} {v : Val}
     (hw : run defaultCache p g s (.write n buf) = (.ok v, s')) :
     (run defaultCache p g s' (.value n)).1 =
@@ -344,7 +345,7 @@ theorem own_write_visible_op {p : Profile} {g : Graph} (hD : Declared p g) {s s'
        | .err x => .err x
        | .panic => .panic) := by
   obtain ⟨hlen, hwa⟩ := opWrite_static_inv hn hsel hw
-  have hvis := own_write_visible hD hI hn (keyAddr_static hsel) hlen hwa
+  have hvis := own_write_visible hlen hwa
   simp only [run, evalOp, opValue, hn, hk, fuelOf, evalInt]
   rw [bind_apply, bind_apply, wcor_static _ _ _ hsel, hvis]
   dsimp only [M.lift]
@@ -355,8 +356,20 @@ example :
     (runHist defaultCache Profile.dev
       [.port, .reg ⟨.int .le .unsigned, 0, none, 2, .writeAround, .rw, [], 0⟩]
       (initDefault [.port, .reg ⟨.int .le .unsigned, 0, none, 2, .writeAround, .rw, [], 0⟩]
-        ⟨[0, 0, 0xAA, 0xBB], [], [], [], 0, []⟩)
+        ⟨[0, 0, 0xAA, 0xBB], [], [], [], [], 0, []⟩)
       [.value 1, .setValue 1 (.int 7), .value 1]).1 = [.ok (.int 0), .ok .unit, .ok (.int 7)] := by
+  decide +kernel
+
+/-- the partially applied, rejected write that used to fail (F-C04-3): WriteThrough register,
+read `0x11111111`, `set_value(0x22222222)` on a device that applies two bytes and then reports an
+error, read again → what the device holds (`0x11112222`), not the stale cached value -/
+example :
+    (runHist defaultCache Profile.dev
+      [.port, .reg ⟨.int .le .unsigned, 0, none, 4, .writeThrough, .rw, [], 0⟩]
+      (initDefault [.port, .reg ⟨.int .le .unsigned, 0, none, 4, .writeThrough, .rw, [], 0⟩]
+        ⟨[0x11, 0x11, 0x11, 0x11], [], [], [], [(0, (2, []))], 0, []⟩)
+      [.value 1, .setValue 1 (.int 0x22222222), .value 1]).1 =
+      [.ok (.int 0x11111111), .err .device, .ok (.int 0x11112222)] := by
   decide +kernel
 
 end CamVerif.C04
